@@ -12,3 +12,9 @@ Definition pf_dec := Eval vm_compute in failing dec_prop cases_dec.
 Print pf_dec.
 Definition pf_addr := Eval vm_compute in failing addr_prop cases_addr.
 Print pf_addr.
+Definition pf_addrb := Eval vm_compute in failing addrb_prop cases_addrb.
+Print pf_addrb.
+Definition pf_btc := Eval vm_compute in failing btc_prop cases_btc.
+Print pf_btc.
+Definition pf_btcb := Eval vm_compute in failing btcb_prop cases_btcb.
+Print pf_btcb.
